@@ -80,6 +80,7 @@ struct MArg
 struct MInst
 {
     std::string name, templ;
+    std::string base;  // non-empty: this instance instantiates the instance `base` (a chain); `templ` stays the root template
     std::vector<MParam> free_params;  // partial instantiation
     std::vector<MArg> args;
 };
